@@ -15,7 +15,7 @@ from textwrap import dedent
 from types import TracebackType
 
 from .selector import Element, check_element
-from .tags import enter_tag, exit_tag, get_tags
+from .tags import Tag, TagSet, enter_tag, exit_tag, get_tags
 from .utils import ABSENT, DictPile
 
 _IDX = count()
@@ -370,7 +370,18 @@ class PteraTransformer(NodeTransformer):
     def make_interaction(self, target, ann, value, orig=None, expression=False):
         """Create code for setting the value of a variable."""
         if ann and isinstance(target, ast.Name):
-            self.annotated[target.id] = self._evaluate(ann)
+            new_ann = self._evaluate(ann)
+            old_ann = self.annotated.get(target.id, None)
+            if isinstance(old_ann, (Tag, TagSet)):
+                # The same variable may be annotated at several bindings:
+                # remember all the tags it can carry, so that a tag
+                # selector is not refused (or the variable skipped) because
+                # a later binding carries another annotation.
+                if isinstance(new_ann, (Tag, TagSet)):
+                    new_ann = old_ann & new_ann
+                else:
+                    new_ann = old_ann
+            self.annotated[target.id] = new_ann
             self.linenos[target.id] = target.lineno
         ann_arg = ann if ann else ast.Constant(value=None)
         value_arg = self._get("ABSENT") if value is None else value
